@@ -222,6 +222,42 @@ func makePlant(r *rand.Rand, kind string, stmts *[]syntax.Stmt, ti *treeInfo) *p
 		}
 		insert(l, &syntax.ExprStmt{X: x})
 		return &plant{kind: kind, validUnder: never, node: id, ctx: l.ctxName}
+	case "default-refers-to-own-param", "default-refers-to-later-param", "default-refers-to-own-varargs", "lambda-default-refers-to-own-param",
+		"comprehension-var-after-comprehension", "first-iterable-refers-to-own-var", "lambda-param-after-lambda", "def-local-outside-def":
+		// a name that is bound in a neighbouring scope, used where that scope does not reach: undefined
+		l := pickList(func(listCtx) bool { return true })
+		use := ident("zq_leak")
+		pass := []syntax.Stmt{&syntax.BranchStmt{Token: syntax.PASS}}
+		opt := func(name string, dflt syntax.Expr) syntax.Expr {
+			return &syntax.BinaryExpr{Op: syntax.EQ, X: ident(name), Y: dflt}
+		}
+		var s syntax.Stmt
+		switch kind {
+		case "default-refers-to-own-param":
+			s = &syntax.DefStmt{Name: ident("zq_f"), Params: []syntax.Expr{ident("zq_leak"), opt("zq_o", use)}, Body: pass}
+		case "default-refers-to-later-param":
+			s = &syntax.DefStmt{Name: ident("zq_f"), Params: []syntax.Expr{opt("zq_o", use), opt("zq_leak", lit(2))}, Body: pass}
+		case "default-refers-to-own-varargs":
+			s = &syntax.DefStmt{Name: ident("zq_f"), Params: []syntax.Expr{&syntax.UnaryExpr{Op: syntax.STAR, X: ident("zq_leak")}, opt("zq_k", use)}, Body: pass}
+		case "lambda-default-refers-to-own-param":
+			s = &syntax.ExprStmt{X: &syntax.LambdaExpr{Params: []syntax.Expr{ident("zq_leak"), opt("zq_o", use)}, Body: ident("zq_o")}}
+		case "comprehension-var-after-comprehension":
+			comp := &syntax.Comprehension{Body: ident("zq_leak"), Clauses: []syntax.Node{&syntax.ForClause{Vars: ident("zq_leak"), X: &syntax.ListExpr{List: []syntax.Expr{lit(1)}}}}}
+			s = &syntax.ExprStmt{X: &syntax.BinaryExpr{Op: syntax.PLUS, X: comp, Y: &syntax.ListExpr{List: []syntax.Expr{use}}}}
+		case "first-iterable-refers-to-own-var":
+			s = &syntax.ExprStmt{X: &syntax.Comprehension{Body: lit(1), Clauses: []syntax.Node{&syntax.ForClause{Vars: ident("zq_leak"), X: use}}}}
+		case "lambda-param-after-lambda":
+			call := &syntax.CallExpr{Fn: &syntax.ParenExpr{X: &syntax.LambdaExpr{Params: []syntax.Expr{ident("zq_leak")}, Body: ident("zq_leak")}}, Args: []syntax.Expr{lit(1)}}
+			s = &syntax.ExprStmt{X: &syntax.BinaryExpr{Op: syntax.PLUS, X: call, Y: use}}
+		case "def-local-outside-def":
+			// only at module level: inside a function the enclosing block would make it a free variable lookup all the same
+			body := []syntax.Stmt{&syntax.AssignStmt{Op: syntax.EQ, LHS: ident("zq_leak"), RHS: lit(1)}, &syntax.ReturnStmt{Result: ident("zq_leak")}}
+			d := &syntax.DefStmt{Name: ident("zq_f"), Params: nil, Body: body}
+			insert(l, d)
+			s = &syntax.ExprStmt{X: &syntax.BinaryExpr{Op: syntax.PLUS, X: lit(1), Y: use}}
+		}
+		insert(l, s)
+		return &plant{kind: kind, validUnder: never, node: use, ctx: l.ctxName}
 	case "break-outside-loop", "continue-outside-loop":
 		l := pickList(func(c listCtx) bool { return !c.inLoop })
 		if l == nil {
@@ -448,6 +484,8 @@ func makePlant(r *rand.Rand, kind string, stmts *[]syntax.Stmt, ti *treeInfo) *p
 
 var plantKinds = []string{
 	"undefined-name", "undefined-in-lambda-default", "undefined-in-comprehension",
+	"default-refers-to-own-param", "default-refers-to-later-param", "default-refers-to-own-varargs", "lambda-default-refers-to-own-param",
+	"comprehension-var-after-comprehension", "first-iterable-refers-to-own-var", "lambda-param-after-lambda", "def-local-outside-def",
 	"break-outside-loop", "continue-outside-loop", "break-in-def-inside-loop", "return-at-top-level",
 	"load-in-def", "load-in-loop", "load-in-if",
 	"rebind-global", "redefine-def", "augassign-global-at-top",
